@@ -182,7 +182,10 @@ class RawMeshData:
                 self.edges[ie] = utils.keyify(self.edges[ie])
 
     def _prepare_faces(self):
-        pass
+        # index rows given as numpy arrays behave differently from lists/tuples (+ is not concatenation)
+        for iF in self.id_faces:
+            if isinstance(self.faces[iF], np.ndarray):
+                self.faces[iF] = self.faces[iF].tolist()
 
     def _generate_face_corners(self):
         nc = len(self.face_corners)
@@ -196,7 +199,10 @@ class RawMeshData:
                     self.face_corners.append(v,iF)
 
     def _prepare_cells(self):
-        pass
+        # index rows given as numpy arrays behave differently from lists/tuples (+ is not concatenation)
+        for iC in self.id_cells:
+            if isinstance(self.cells[iC], np.ndarray):
+                self.cells[iC] = self.cells[iC].tolist()
 
     def _generate_cell_corners(self):
         nce = len(self.cell_corners._elem)
